@@ -4,25 +4,7 @@
 From Coq Require Import ZArith List Bool NArith Lia.
 Import ListNotations.
 Require Import PV.Core.Obj PV.Core.Val PV.Core.Cls PV.Core.Member PV.Core.CanAssignK PV.Core.CanAssign.
-Require Import PV.Core.C03Run PV.Core.C04Run PV.Proofs.C04Mono.
-
-(* structural induction on values with the children available *)
-Section ValInd.
-  Variable P : val -> Prop.
-  Hypothesis Hleaf : forall l, P (VLeaf l).
-  Hypothesis Hnode : forall t k, Forall P k -> P (VNode t k).
-  Hypothesis Hunion : forall vs, Forall P vs -> P (VUnion vs).
-  Fixpoint val_ind' (v : val) : P v :=
-    match v with
-    | VLeaf l => Hleaf l
-    | VNode t k =>
-        Hnode t k ((fix go (l : list val) : Forall P l :=
-                      match l with [] => Forall_nil P | x :: r => Forall_cons x (val_ind' x) (go r) end) k)
-    | VUnion vs =>
-        Hunion vs ((fix go (l : list val) : Forall P l :=
-                      match l with [] => Forall_nil P | x :: r => Forall_cons x (val_ind' x) (go r) end) vs)
-    end.
-End ValInd.
+Require Import PV.Core.C03Run PV.Core.C04Run PV.Proofs.ValInd PV.Proofs.C04Mono.
 
 Section Refl.
   Context (ct : class_table) (e : bool).
